@@ -44,12 +44,19 @@ func cmdI18Load(args []string) error {
 		if i%7 == 0 {
 			nfiles = 30 + r.Intn(40)
 		}
+		if i%5 == 2 && nfiles < 6 {
+			nfiles = 6 + r.Intn(10)
+		}
 		var layout []string
 		for f := 0; f < nfiles; f++ {
 			dir := []string{"", "en/", "en/sub/", "pl/", "a/b/c/"}[r.Intn(5)]
 			obj := map[string]interface{}{}
 			inner := map[string]interface{}{}
-			for k := 0; k < 1+r.Intn(3); k++ {
+			nkeys := 1 + r.Intn(3)
+			if i%5 == 2 {
+				nkeys = []int{63, 64, 65, 130, 300}[r.Intn(5)] // large files: a store that treats big batches differently
+			}
+			for k := 0; k < nkeys; k++ {
 				key := fmt.Sprintf("f%d_k%d", f, k)
 				v := values[r.Intn(len(values))]
 				if k%2 == 0 {
